@@ -219,10 +219,12 @@ pub fn simulate(seed: u64, focus: &Focus, exec: &mut Executor) -> Result<(Plan, 
     }
     let mut skew: i64 = plan.faults.skew_ms;
     let mut last_clock = start_clock;
+    let mut last_mono: u64 = 0;
     let mut frames = 0usize;
     let mut events = 0u64;
     let mac_to_peer: BTreeMap<Mac, usize> = plan.peers.iter().enumerate().map(|(i, p)| (p.mac, i)).collect();
-    let hard_cap = plan.horizon_us + 12_000_000;
+    // clients may pause for minutes between segments: leave room behind the horizon
+    let hard_cap = plan.horizon_us + 3_700_000_000;
     let mut died = false;
     while let Some(Reverse(item)) = sim.q.pop() {
         if item.at > hard_cap || died {
@@ -292,6 +294,18 @@ pub fn simulate(seed: u64, focus: &Focus, exec: &mut Executor) -> Result<(Plan, 
                 if clock != last_clock {
                     last_clock = clock;
                     let st = Step::Clock(clock);
+                    let _ = exec.step(&st)?;
+                    hist.recs.push(Record {
+                        step: st,
+                        obs: None,
+                        clock,
+                        epoch: exec.epoch(),
+                    });
+                }
+                // elapsed time of the node (for clock reads that are not wall-clock reads)
+                if sim.now >= last_mono + 1000 || (last_mono == 0 && frames == 1) {
+                    last_mono = sim.now.max(1);
+                    let st = Step::Mono(sim.now);
                     let _ = exec.step(&st)?;
                     hist.recs.push(Record {
                         step: st,
@@ -507,7 +521,7 @@ fn shape_hash(h: &History) -> u64 {
             }
             Step::Soft => mix(0xfffe),
             Step::Hard => mix(0xffff),
-            Step::Clock(_) => {}
+            Step::Clock(_) | Step::Mono(_) => {}
         }
     }
     x
